@@ -252,6 +252,41 @@ def gen_history(rng, c, prof):
             val = 1
             down.add(code)
         ev.append("key %s %d %d" % (sub, code, val))
+    # directed patterns that random histories rarely contain (only keys that are up at this point take part)
+    if rng.random() < prof.get("directed_p", 0.2):
+        inv0 = {a: k for k, a in act_keys.items()}
+        kb = {}
+        for l in c.cfg:
+            t = l.split()
+            if t[0] == "cfg.key":
+                kb.setdefault(int(t[1]), []).append((t[2], int(t[3]), int(t[4]), int(t[5])))   # (sub, code, note, offset) per mapping
+        free = lambda k: k not in down and k not in exitseq and k not in act_keys
+        tap = lambda k: ["key - %d 1" % k, "key - %d 0" % k]
+        seq = []
+        which = rng.random()
+        ms = [a for a in ("mapping_up", "mapping_down") if a in inv0 and inv0[a] not in down and inv0[a] not in exitseq]
+        if which < 0.5 and ms and len(kb) >= 2:
+            # a note key held while the mapping is switched; auto-repeat events of the held key arrive; then its release
+            cands = [(sub, code) for m_ in kb.values() for (sub, code, _, _) in m_ if free(code)]
+            if cands:
+                sub, code = rng.choice(cands)
+                seq += ["key %s %d 1" % (sub, code)] + tap(inv0[rng.choice(ms)])
+                for _ in range(rng.choice([1, 1, 2])):
+                    seq.append("key %s %d 2" % (sub, code))
+                if rng.random() < 0.3:
+                    seq += tap(inv0[rng.choice(ms)])
+                seq.append("key %s %d 0" % (sub, code))
+        else:
+            # two keys of one mapping with the same pitch, pressed on two channels an even / odd number of steps apart
+            cu = [a for a in ("channel_up", "channel_down") if a in inv0 and inv0[a] not in down and inv0[a] not in exitseq]
+            pairs = [(a, b) for m_ in kb.values() for a in m_ for b in m_ if a[1] < b[1] and a[2] == b[2] and a[3] == b[3] and free(a[1]) and free(b[1])]
+            if cu and pairs:
+                a, b = rng.choice(pairs)
+                seq.append("key %s %d 1" % (a[0], a[1]))
+                for _ in range(rng.choice([1, 2, 2, 3, 4])):
+                    seq += tap(inv0[rng.choice(cu[:1])])
+                seq += ["key %s %d 1" % (b[0], b[1]), "key %s %d 0" % (a[0], a[1]), "key %s %d 0" % (b[0], b[1])]
+        ev += seq
     # directed: a panic pressed and released while another action key (or a note key) is held, then the partner of that
     # action / another note — what was held across the panic must still count as held afterwards
     inv = {a: k for k, a in act_keys.items()}
